@@ -614,6 +614,80 @@ theorem regGet_regAppend (r : List (Path × List ObjId)) (k : Path) (o : ObjId) 
         simp only [List.any_cons, hx1, ha, Bool.or_self, Bool.false_eq_true, ↓reduceIte, List.cons_append, List.lookup, hx2]
         exact ih
 
+theorem snd_inj_of_nodup (l : List (String × ObjId)) (h : (l.map Prod.snd).Nodup) :
+    ∀ e1 ∈ l, ∀ e2 ∈ l, e1.2 = e2.2 → e1 = e2 := by
+  induction l with
+  | nil => intro e1 h1; simp at h1
+  | cons x xs ih =>
+    have hn : x.2 ∉ xs.map Prod.snd ∧ (xs.map Prod.snd).Nodup := by
+      rw [List.map_cons] at h; exact List.nodup_cons.1 h
+    intro e1 h1 e2 h2 heq
+    rcases List.mem_cons.1 h1 with h1' | h1'
+    · rcases List.mem_cons.1 h2 with h2' | h2'
+      · rw [h1', h2']
+      · exact absurd (List.mem_map.2 ⟨e2, h2', by rw [← heq, h1']⟩) hn.1
+    · rcases List.mem_cons.1 h2 with h2' | h2'
+      · exact absurd (List.mem_map.2 ⟨e1, h1', by rw [heq, h2']⟩) hn.1
+      · exact ih hn.2 e1 h1' e2 h2' heq
+
+/-- values of the fold when the registered functions are pairwise different objects and ids of different
+names never clash: every function object occurs at most once among the values. -/
+theorem foldl_parseStep_vals (w : World) (parsed : List (String × ObjId)) (hp : (parsed.map Prod.snd).Nodup) :
+    ∀ (ns : List String) (d0 d : Dict),
+    ns.foldl (parseStep w parsed) (some d0) = some d → ns.Nodup →
+    (∀ n ∈ ns, ∀ c, contribution w parsed n = some c → ∀ k ∈ c.map Prod.fst, k ∉ d0.map Prod.fst) →
+    (∀ n1 ∈ ns, ∀ n2 ∈ ns, n1 ≠ n2 → ∀ c1 c2, contribution w parsed n1 = some c1 → contribution w parsed n2 = some c2 →
+        ∀ k ∈ c1.map Prod.fst, k ∉ c2.map Prod.fst) →
+    (d0.map Prod.snd).Nodup →
+    (∀ n ∈ ns, ∀ c, contribution w parsed n = some c → ∀ o ∈ c.map Prod.snd, o ∉ d0.map Prod.snd) →
+    (d.map Prod.snd).Nodup := by
+  intro ns
+  induction ns with
+  | nil => intro d0 d h _ _ _ hv _; simp at h; subst h; exact hv
+  | cons n rest ih =>
+    intro d0 d h hnd hd0 hpair hv hdis
+    rw [List.foldl_cons] at h
+    have hnd' := List.nodup_cons.1 hnd
+    cases hc : contribution w parsed n with
+    | none => simp [parseStep, hc, foldl_parseStep_none] at h
+    | some c =>
+      simp only [parseStep, hc] at h
+      have hcs := contribution_spec w parsed n c hc
+      rw [dictUpdate_fresh c d0 hcs.1 (hd0 n (by simp) c hc)] at h
+      have hcv : (c.map Prod.snd).Nodup := by
+        rw [hcs.2]
+        exact List.Nodup.sublist (List.Sublist.map _ List.filter_sublist) hp
+      apply ih (d0 ++ c) d h hnd'.2
+      · intro n' hn' c' hc' k hk
+        simp only [List.map_append, List.mem_append, not_or]
+        refine ⟨hd0 n' (by simp [hn']) c' hc' k hk, ?_⟩
+        intro hkc
+        have hne : n' ≠ n := by intro he; subst he; exact hnd'.1 hn'
+        exact hpair n' (by simp [hn']) n (by simp) hne c' c hc' hc k hk hkc
+      · intro n1 h1 n2 h2 hne c1 c2 hc1 hc2
+        exact hpair n1 (by simp [h1]) n2 (by simp [h2]) hne c1 c2 hc1 hc2
+      · simp only [List.map_append]
+        exact List.nodup_append.2 ⟨hv, hcv, by
+          intro a ha b hb hab
+          subst hab
+          exact hdis n (by simp) c hc a hb ha⟩
+      · intro n' hn' c' hc' o ho
+        simp only [List.map_append, List.mem_append, not_or]
+        refine ⟨hdis n' (by simp [hn']) c' hc' o ho, ?_⟩
+        intro hoc
+        have hne : n' ≠ n := by intro he; subst he; exact hnd'.1 hn'
+        rw [hcs.2] at hoc
+        rw [(contribution_spec w parsed n' c' hc').2] at ho
+        obtain ⟨e1, he1, h1⟩ := List.mem_map.1 hoc
+        obtain ⟨e2, he2, h2⟩ := List.mem_map.1 ho
+        have he1' := List.mem_filter.1 he1
+        have he2' := List.mem_filter.1 he2
+        have := snd_inj_of_nodup parsed hp e1 he1'.1 e2 he2'.1 (by rw [h1, h2])
+        subst this
+        have a1 : e1.1 = n := by simpa using he1'.2
+        have a2 : e1.1 = n' := by simpa using he2'.2
+        exact hne (a2.symm.trans a1)
+
 /-! ### Keys of the reports of one file -/
 
 def Report.key : Report → Option TKey
